@@ -740,6 +740,7 @@ type Session struct {
 	Consts    map[string]string // precomputed constants
 	PkgDirs   map[string]string // package path -> directory
 	errVars   map[string]map[string]string
+	getters   map[string]map[string]string
 	InitStubs map[string]int // body-less functions called (and stubbed with zero results) during package init
 }
 
